@@ -3,7 +3,7 @@
 From Coq Require Import ZArith List Bool Lia.
 From IBL.lib Require Import PyInt.
 From IBL.C17 Require Import Model.
-From IBL.C03 Require Import Model RtLib Proofs Gains.
+From IBL.C03 Require Import Model RtLib Proofs Gains Run RunSound.
 From IBL.C03 Require Rt_050_512 Rt_050_2048 Rt_050_8192 Rt_060_512 Rt_060_2048 Rt_060_8192
                      Rt_062_512 Rt_062_2048 Rt_062_8192 Rt_sync.
 Import ListNotations.
@@ -124,6 +124,11 @@ Proof.
   exact (pub_np2 g labels ns W RECON_WINDOW data Hg Hl Hns HW eq_refl Hlen Hr Hv).
 Qed.
 Print Assumptions C03_np2_split_lossless_and_inverse.
+
+(* ---- glue: the memoised conversion the correspondence runs (Run.run_full) is `roundtrip` itself ---- *)
+Theorem C03_run_memo_sound : forall f vals v, memo_apply f (memo_table f vals) v = f v.
+Proof. exact memo_sound. Qed.
+Print Assumptions C03_run_memo_sound.
 
 (* Non-vacuity: a 2-window, 2-shank recording satisfies the hypotheses and the model computes it. *)
 Example C03_example_kept :
